@@ -757,9 +757,35 @@ fn process_item(repo: &str, req: &Value, cache: &mut BTreeMap<String, (String, s
     };
     let _ = base;
 
-    collect_macro_rules(&ast.items);
-    let found = find_item(&src, &ast.items, sel)?;
+    collect_macro_rules(&ast.items, false);
+    let found0 = find_item(&src, &ast.items, sel)?;
+    // R4 pre-pass (function items only): expand single-arm macro_rules! invocations, then re-parse the expanded text
+    let mut r4_count = 0u64;
+    let mut orig_lines: Option<(usize, usize)> = None;
+    let (src, ast, sel_owned): (String, syn::File, String) = match &found0 {
+        Found::Fn { start, end, sig, .. } => {
+            match expand_r4(&src[*start..*end])? {
+                Some((expanded, n)) => {
+                    r4_count = n;
+                    let line0 = src[..*start].bytes().filter(|b| *b == b'\n').count();
+                    let line1 = src[..*end].bytes().filter(|b| *b == b'\n').count();
+                    orig_lines = Some((line0 + 1, line1 + 1));
+                    let synthetic = format!("{}impl __VX {{ {} }}", "\n".repeat(line0), expanded);
+                    let ast2 = syn::parse_file(&synthetic).map_err(|e| format!("R4: expanded text does not parse: {}", e))?;
+                    let name = sig.ident.to_string();
+                    (synthetic, ast2, format!("impl __VX :: fn {}", name))
+                }
+                None => (src.clone(), ast, sel.to_string()),
+            }
+        }
+        _ => (src.clone(), ast, sel.to_string()),
+    };
+    let found = find_item(&src, &ast.items, &sel_owned)?;
     let mut cx = Ctx { src: &src, edits: Vec::new(), seq: 0, rules: BTreeMap::new() };
+    for _ in 0..r4_count {
+        cx.count("R4(single-arm macro_rules! invocation expanded by substitution; rules then applied to the expanded text)");
+    }
+    let _ = orig_lines;
 
     let ret_name = req["ret"].as_str().unwrap_or("r");
     let sig_frag = req["sig"].as_str().unwrap_or("");
@@ -947,19 +973,6 @@ fn finish(
                     cx.rep(*s, *e, &format!("vx_assert({} == {})", a[0], a[1]));
                     cx.count("R8(assert_eq! -> vx_assert)");
                 }
-                other if MACRO_RULES.with(|m| m.borrow().contains_key(other)) && req["r4"].as_bool().unwrap_or(true) => {
-                    let (params, body) = MACRO_RULES.with(|m| m.borrow().get(other).cloned().unwrap());
-                    let args = split_top_commas(toks);
-                    if args.len() != params.len() {
-                        return Err(format!("R4: macro {}! called with {} args, {} params", other, args.len(), params.len()));
-                    }
-                    let mut text = body.clone();
-                    for (p_, a_) in params.iter().zip(args.iter()) {
-                        text = text.replace(&format!("$ {}", p_), a_).replace(&format!("${}", p_), a_);
-                    }
-                    cx.rep(*s, *e, &format!("{{ {} }}", text));
-                    cx.count("R4(file-local single-arm macro_rules! expanded by substitution)");
-                }
                 "format" => {
                     cx.rep(*s, *e, "vx_format()");
                     cx.count("R9(format! -> vx_format())");
@@ -1034,7 +1047,7 @@ fn finish(
         let first = toks.first().map(|t| t.1).unwrap_or(0);
         let lead = src[region_start..region_end].len() - src[region_start..region_end].trim_start().len();
         let shift = region_start as isize + lead as isize - first as isize;
-        let mut taken: Vec<(usize, usize)> = Vec::new();
+        let mut taken: Vec<(usize, usize)> = cx.edits.iter().filter(|e| e.end > e.start).map(|e| (e.start, e.end)).collect();
         for s in subs {
             let old = s[0].as_str().ok_or("subst old")?;
             let new = s[1].as_str().ok_or("subst new")?;
@@ -1278,8 +1291,8 @@ thread_local! {
 }
 
 /// R4: collect single-arm `macro_rules! name { ($a: ident, $b: ident) => { body }; }` definitions of a file
-fn collect_macro_rules(items: &[syn::Item]) {
-    let mut map = BTreeMap::new();
+fn collect_macro_rules(items: &[syn::Item], keep: bool) {
+    let mut map = if keep { MACRO_RULES.with(|m| m.borrow().clone()) } else { BTreeMap::new() };
     for it in items {
         if let syn::Item::Macro(m) = it {
             if m.mac.path.is_ident("macro_rules") {
@@ -1312,6 +1325,85 @@ fn collect_macro_rules(items: &[syn::Item]) {
         }
     }
     MACRO_RULES.with(|m| *m.borrow_mut() = map);
+}
+
+/// R4 pre-pass: expands invocations of single-arm `macro_rules!` macros (file-level or local to the function) by
+/// textual substitution and removes local definitions.  Returns the new function text if anything was expanded.
+fn expand_r4(region: &str) -> Result<Option<(String, u64)>, String> {
+    let wrapped = format!("impl __VX {{ {} }}", region);
+    let off = "impl __VX { ".len();
+    let f = match syn::parse_file(&wrapped) {
+        Ok(f) => f,
+        Err(_) => return Ok(None),
+    };
+    let func = match f.items.first() {
+        Some(syn::Item::Impl(im)) => match im.items.first() {
+            Some(syn::ImplItem::Fn(func)) => func.clone(),
+            _ => return Ok(None),
+        },
+        _ => return Ok(None),
+    };
+    let mut edits: Vec<(usize, usize, String)> = Vec::new();
+    let mut local_items: Vec<syn::Item> = Vec::new();
+    for st in &func.block.stmts {
+        if let syn::Stmt::Item(syn::Item::Macro(m)) = st {
+            if m.mac.path.is_ident("macro_rules") {
+                local_items.push(syn::Item::Macro(m.clone()));
+                let (s_, e_) = br(m.span());
+                edits.push((s_, e_, String::new()));
+            }
+        }
+    }
+    if !local_items.is_empty() {
+        collect_macro_rules(&local_items, true);
+    }
+    struct Inv(Vec<(usize, usize, String, String)>);
+    impl<'ast> Visit<'ast> for Inv {
+        fn visit_macro(&mut self, m: &'ast syn::Macro) {
+            let (s, _) = br(m.path.span());
+            let e = br(m.delimiter.span().close()).1;
+            let name = m.path.segments.last().map(|s| s.ident.to_string()).unwrap_or_default();
+            self.0.push((s, e, name, m.tokens.to_string()));
+        }
+    }
+    let mut inv = Inv(Vec::new());
+    inv.visit_block(&func.block);
+    let mut n = 0u64;
+    for (s_, e_, name, toks) in inv.0 {
+        if name == "macro_rules" {
+            continue;
+        }
+        let def = MACRO_RULES.with(|m| m.borrow().get(&name).cloned());
+        if let Some((params, body)) = def {
+            let args = split_top_commas(&toks);
+            if args.len() != params.len() {
+                return Err(format!("R4: macro {}! called with {} args, {} params", name, args.len(), params.len()));
+            }
+            let mut text = body.clone();
+            for (p_, a_) in params.iter().zip(args.iter()) {
+                text = text.replace(&format!("$ {}", p_), a_).replace(&format!("${}", p_), a_);
+            }
+            edits.push((s_, e_, format!("{{ {} }}", text)));
+            n += 1;
+        }
+    }
+    if edits.is_empty() {
+        return Ok(None);
+    }
+    edits.sort();
+    let mut out = String::new();
+    let mut pos = off;
+    let end = wrapped.len() - 2;
+    for (s_, e_, t) in edits {
+        if s_ < pos {
+            continue; // nested inside an already replaced range
+        }
+        out.push_str(&wrapped[pos..s_]);
+        out.push_str(&t);
+        pos = e_;
+    }
+    out.push_str(&wrapped[pos..end]);
+    Ok(Some((out, n)))
 }
 
 fn split_top_commas(toks: &str) -> Vec<String> {
